@@ -401,7 +401,7 @@ class Ctx(Report):
         return None
 
     def correspond(self, stream, harness, lines, oracle=None, nontrivial=None, compare=None,
-                   extra_flags=(), model_lines=None, want_model=True):
+                   extra_flags=(), model_lines=None, want_model=True, ref_lines=None):
         """run `lines` through the real code (harness) and through the Lean model; compare line by line.
         oracle(line, impl_out, model_out) -> None | str   : property judged on the real output
         compare(line, impl_out, model_out) -> bool        : tie (default: string equality)
@@ -419,6 +419,9 @@ class Ctx(Report):
             model = run_model(model_lines if model_lines is not None else lines)
         else:
             model = [None] * len(lines)
+        ref = None
+        if ref_lines is not None and os.path.exists(DRIVER):
+            ref = run_model(ref_lines)
         st["cases"] = len(lines)
         self.cov["evaluations"] += len(lines)
         for i, line in enumerate(lines):
@@ -435,7 +438,7 @@ class Ctx(Report):
             elif io == "exc-foreign":
                 why = "a foreign exception type escaped"
             elif oracle is not None:
-                why = oracle(line, io, mo)
+                why = oracle(line, io, mo, ref[i]) if ref is not None else oracle(line, io, mo)
             if why:
                 k = self.match_known(stream, line, io, mo)
                 if k:
